@@ -72,6 +72,8 @@ class SimStream(_Base):
         if self._closed:
             raise EOFError("stream has been closed")
         self.npolls += 1
+        if s is not None:
+            s.count_step()
         if s is not None and s.io_points:
             s.point("stream.poll", self.name)
         if self._closed:
